@@ -14,6 +14,10 @@ pub struct ParsedAttr {
     /// Index of end of the attribute
     pub end: usize,
 
+    /// Index of end of the attribute's value without trailing zero bytes,
+    /// only differs from `end` if the attribute's length may include padding
+    pub trimmed_end: usize,
+
     /// End of the attribute including padding
     pub padding_end: usize,
 
@@ -24,6 +28,12 @@ pub struct ParsedAttr {
 impl ParsedAttr {
     pub fn get_value<'b>(&self, buf: &'b [u8]) -> &'b [u8] {
         &buf[self.begin..self.end]
+    }
+
+    /// Value of a variable length attribute (text, opaque bytes) with
+    /// padding removed that was wrongfully included in the attribute's length
+    pub fn get_trimmed_value<'b>(&self, buf: &'b [u8]) -> &'b [u8] {
+        &buf[self.begin..self.trimmed_end]
     }
 }
 
@@ -69,7 +79,7 @@ impl ParsedMessage {
             let padding = padding_usize(attr_len);
 
             let value_begin = usize::try_from(cursor.position())?;
-            let mut value_end = value_begin + attr_len;
+            let value_end = value_begin + attr_len;
             let padding_end = value_end + padding;
 
             if padding_end > cursor.get_ref().len() {
@@ -83,18 +93,23 @@ impl ParsedMessage {
             // value length __prior__ to padding. Some stun agents have
             // the padding included in the length anyway. This double
             // checks and removes all bytes from the end of the value.
+            // Only attributes with a variable length value make use of this,
+            // a fixed size value may well end with zero bytes.
+            let mut trimmed_end = value_end;
+
             if padding == 0 {
                 let value = &cursor.get_ref()[value_begin..value_end];
 
                 // count all zero bytes at the end of the value
                 let counted_padding = value.iter().rev().take_while(|&&b| b == 0).count();
 
-                value_end -= counted_padding;
+                trimmed_end -= counted_padding;
             }
 
             let attr = ParsedAttr {
                 begin: value_begin,
                 end: value_end,
+                trimmed_end,
                 padding_end,
                 typ: attr_typ,
             };
